@@ -92,6 +92,7 @@ class TaskScheduler(object):
             # items waiting to be flushed, or computed).
             while len(self._tasks) > init_num_tasks:
                 if len(self._tasks) > _debug_options.MAX_TASK_STACK_SIZE:
+                    self._abandon_tasks(0)
                     self.reset()
                     debug.dump(self)
                     raise RuntimeError(
@@ -124,8 +125,25 @@ class TaskScheduler(object):
         except BaseException:
             # Something escaped from a task, context or future: leave none of the tasks of
             # this computation on the stack, so that the scheduler can be used again.
-            del self._tasks[init_num_tasks:]
+            self._abandon_tasks(init_num_tasks)
             raise
+
+    def _abandon_tasks(self, first):
+        """Drops the tasks above position first from the stack without continuing them.
+
+        Tasks that are waiting for their dependencies have their contexts resumed; since they
+        will never be continued, the contexts are paused here (innermost first), so that what
+        they established does not outlive the computation. A task that is executing right now
+        (it made the synchronous call we are in) keeps its contexts: its code is still running.
+
+        """
+        abandoned = self._tasks[first:]
+        del self._tasks[first:]
+        for entry in reversed(abandoned):
+            if isinstance(entry, AsyncTask) and not entry.is_computed():
+                task = entry
+                if not task.running:
+                    task._pause_contexts()
 
     def _schedule_batch(self, batch):
         if batch.is_flushed():
